@@ -335,6 +335,9 @@ func (g *rgen) rule(origin string, nestDepth int, nested bool) Item {
 			it.Nested = append(it.Nested, g.rule(origin, nestDepth+1, true))
 		}
 	}
+	if len(it.Nested) > 0 && r.Intn(3) == 0 {
+		it.Trail = g.decls(origin, false)
+	}
 	if r.Intn(30) == 0 && !(nested && excludeNestedBadSel) {
 		it.BadSel = true
 	}
@@ -489,6 +492,9 @@ func genRandom(r *rand.Rand) caseIn {
 func knownDefectTrigger(doc *Doc, media string, hints, forms bool) string {
 	if media == "" {
 		media = "print"
+	}
+	if !excludeStyleAttrVsID && !excludeNestedOwnOrder && !excludeNestedBadSel && !excludeImportAfterEmptyRule {
+		return "" // no open finding
 	}
 	if excludeNestedBadSel && hasNestedBadSel(doc) {
 		return "nested-badsel"
